@@ -72,3 +72,16 @@ func NewRun(o options.RunOptions, sc *scenarios.Scenarios, trig *api.Trigger, co
 	fr, _ := res[0].Interface().(*run.Run)
 	return fr, err
 }
+
+// TakeTotals asks the result to take its final totals (Result.GetTotals on the tree this was written against; a tree that
+// renamed the method - to Final, say - is still served, by name).
+func TakeTotals(res *run.Result) {
+	v := reflect.ValueOf(res)
+	for _, name := range []string{"GetTotals", "Final", "Totals", "TakeTotals"} {
+		if m := v.MethodByName(name); m.IsValid() && m.Type().NumIn() == 0 {
+			m.Call(nil)
+			return
+		}
+	}
+	panic("harness: run.Result has no method that takes the final totals")
+}
